@@ -5,6 +5,7 @@ import ElvisVerif.Lemmas.TcpRelData
 import ElvisVerif.Lemmas.TcpRelData2
 import ElvisVerif.Lemmas.TcpRelLoss
 import ElvisVerif.Lemmas.TcpRelRough
+import ElvisVerif.Lemmas.TcpRelStmt
 import ElvisVerif.Props.C03FinData
 /-!
 # C03 — release after both applications close, from ANY reachable state of the closed system (closes after quiescence)
@@ -726,5 +727,70 @@ def convergeWriteCloseCheck : Bool :=
   | .error _ => false
 
 example : convergeWriteCloseCheck = true := by decide
+
+/-! ## the schedule of `C03ReleaseStatement` itself -/
+
+/-- **`C03ReleaseStatement`'s own schedule, after convergence**: the conclusion of `C03ReleaseStatement`
+    (`Props/C03Release.lean`) — literally its schedule: `close A`, `close B`, `fairRound k` (both retransmission timers
+    expire, `k` exchange phases), `tick A (2·MSL + RTO + 1)`, `tick B (2·MSL + RTO + 1)`, with `k = 2` — holds in every
+    reachable `Done` state, hence (first part) after the ≤ 15 fair rounds of `c01_converges_full_bound` from ANY reachable
+    state of the closed system without close.  (The expiry of the retransmission timers right after the closes only flags
+    the two FINs again, `Tcb.advanceTime_closedT`; `2·MSL + RTO` of virtual time after the last exchange delete both
+    TCBs.)  `C03ReleaseStatement` itself quantifies over every `FinRun`-reachable state with both TCBs out of SYN-SENT and
+    stays open. -/
+theorem c03_release_statement_after_convergence (ia ib : Seq) (ma mb : U16) (simultaneous : Bool) (sys0 s : Sys)
+    (rs : List Res) (hma : 100 ≤ ma.toNat) (hmb : 100 ≤ mb.toNat)
+    (h0 : Sys.run {} [.open .A ia ma, if simultaneous then .open .B ib mb else .listen .B ib mb] = .ok (sys0, rs))
+    (hrun : PlainRun sys0 s) (h31 : RoomH s) :
+    ∃ (rounds : List Nat) (s1 : Sys) (ta tb : Tcb),
+      (rounds.foldlM (fun st k => fairRound k st) s = .ok s1) ∧ Done s1 ta tb ∧ rounds.length ≤ 15 ∧
+      ∃ s', (do
+        let c1 ← Prod.fst <$> s1.step (.close .A)
+        let c2 ← Prod.fst <$> c1.step (.close .B)
+        let c3 ← fairRound 2 c2
+        let c4 ← Prod.fst <$> c3.step (.tick .A (TIME_WAIT + RTO + 1))
+        Prod.fst <$> c4.step (.tick .B (TIME_WAIT + RTO + 1))) = .ok s' ∧
+      s'.a.tcb = none ∧ s'.b.tcb = none := by
+  have h50 : SPACE_FOR_HEADERS = 50 := rfl
+  obtain ⟨rounds, s1, ta, tb, hfold, p1, hd, _, _, sa1, sb1, hlen, _, _, _⟩ :=
+    c01_converges_full_bound ia ib ma mb simultaneous sys0 s rs hma hmb h0 hrun h31
+  have h31' : RoomH s1 := by
+    unfold RoomH
+    rw [sa1, sb1]
+    exact h31
+  have hrun1 : PlainRun sys0 s1 := hrun.trans p1
+  have hg := good_of_reach ia ib ma mb simultaneous sys0 s1 rs (by omega) (by omega) h0 hrun1 h31'
+  have hf := finv_of_reach ia ib ma mb simultaneous sys0 s1 rs (by omega) (by omega) h0 hrun1 h31'
+  obtain ⟨qa, qb⟩ := quiet_of_done hg ta tb hd
+  have notw : ∀ (x : SideId) (t : Tcb), (s1.side x).tcb = some t → t.state = .Established →
+      t.timeouts.timeWait = none := by
+    intro x t ht hst
+    have := (hg.conv.nr.tcb x t ht).tw
+    cases h : t.timeouts.timeWait with
+    | none => rfl
+    | some v =>
+      have := this (by rw [h]; rfl)
+      rw [hst] at this; cases this
+  obtain ⟨s', e, na, nb⟩ := release_statement_quiet s1 ta tb hd.steady.ha hd.steady.hb qa qb
+    (hf.tcb .A ta hd.steady.ha).tmo (hf.tcb .B tb hd.steady.hb).tmo
+    (notw .A ta hd.steady.ha hd.steady.a.st) (notw .B tb hd.steady.hb hd.steady.b.st)
+  exact ⟨rounds, s1, ta, tb, hfold, hd, hlen, s', e, na, nb⟩
+
+/-- the schedule of `C03ReleaseStatement` (`k = 2`) evaluated after the rounds of `hsCheck`'s first state (SYN lost) -/
+def statementCheck : Bool :=
+  match Sys.run {} [.open .A 1000 1500, .listen .B 5000 1500] with
+  | .ok (sys0, _) =>
+    (match plainRunB sys0 [.emit .A, .write .A [1, 2, 3]] with
+      | some s =>
+          (match runRounds s [1, 1, 1, 1, 4] with
+            | .ok s1 =>
+              (match statementRound 2 s1 with
+                | .ok s' => s'.a.tcb.isNone && s'.b.tcb.isNone && s'.b.delivered == [1, 2, 3]
+                | .error _ => false)
+            | .error _ => false)
+      | none => false)
+  | .error _ => false
+
+example : statementCheck = true := by decide
 
 end Elvis.Tcp
